@@ -79,11 +79,14 @@ topk_ordinary!(c31_q_topk_n2_k3, 2, 3, 8);
 topk_ordinary!(c31_q_topk_n3_k0, 3, 0, 8);
 topk_ordinary!(c31_q_topk_n0_k2, 0, 2, 8);
 topk_ordinary!(c31_q_topk_n4_k1, 4, 1, 8);
-topk_ordinary!(c31_t_topk_n4_k2, 4, 2, 8);
-topk_ordinary!(c31_t_topk_n1_k4, 1, 4, 8);
+topk_ordinary!(c31_q_topk_n4_k2, 4, 2, 8);
+topk_ordinary!(c31_q_topk_n1_k4, 1, 4, 8);
 // n > k + 4 reaches the vector body of SimdTopK on GenericIsa (4 f32 lanes)
-topk_ordinary!(c31_t_topk_n6_k1, 6, 1, 10);
-topk_ordinary!(c31_t_topk_n7_k2, 7, 2, 10);
+topk_ordinary!(c31_q_topk_n6_k1, 6, 1, 10);
+topk_ordinary!(c31_q_topk_n7_k2, 7, 2, 10);
+topk_ordinary!(c31_t_topk_n8_k3, 8, 3, 12);
+topk_ordinary!(c31_t_topk_n9_k1, 9, 1, 12);
+topk_ordinary!(c31_t_topk_n5_k4, 5, 4, 10);
 
 /// Sparse candidates (token ids are not positions, e.g. after an earlier filter
 /// in a chain): ids are symbolic and pairwise distinct; the (id, score) pairs
@@ -135,7 +138,8 @@ macro_rules! topk_sparse {
 }
 topk_sparse!(c31_q_topk_sparse_n4_k3, 4, 3, 8);
 topk_sparse!(c31_q_topk_sparse_n3_k1, 3, 1, 8);
-topk_sparse!(c31_t_topk_sparse_n6_k1, 6, 1, 10);
+topk_sparse!(c31_q_topk_sparse_n6_k1, 6, 1, 10);
+topk_sparse!(c31_t_topk_sparse_n7_k2, 7, 2, 10);
 
 /// Same contract over *all* f32 bit patterns (NaNs of both signs, -0.0): the
 /// statement asks for the IEEE total order. See known_findings.json.
